@@ -321,9 +321,11 @@ def run_scenarios(seed, start, count, clauses):
                     tol5 = 1e-6 if sc["L_kind"] not in ("staged", "fastosc") else max(5e-3, 10 * (acc or 0.0))
                     if not np.isfinite(d) or d > tol5:
                         msgs.append(f"rate scaling k={k:g}: textures/F differ by {d:.3e} (> {tol5:.1e}; accuracy of the default-tolerance run {acc})")
-            if "C04" in clauses and sc["L_kind"] != "staged":
+            if "C04" in clauses and sc["L_kind"] != "staged" and sc["texture"] != "axis":
                 # (staged histories contain a rigid-rotation stage: in a rotated frame its strain rate is rounding noise instead of
-                #  exactly zero and the normalisation by the maximum strain rate is ill-conditioned -- see DESIGN, C04 limitations)
+                #  exactly zero and the normalisation by the maximum strain rate is ill-conditioned -- see DESIGN, C04 limitations;
+                #  axis-aligned textures have resolved shears that are exactly zero in the aligned frame and rounding noise in a
+                #  rotated one, so the activity order of the slip systems is decided by noise there: excluded for the same reason)
                 Q = rot(np.random.default_rng([sc["seed"], sc["idx"], 11]))
                 m3 = pydrex.Mineral(phase=m.phase, fabric=m.fabric, regime=m.regime, n_grains=n, fractions_init=b["f"].copy(), orientations_init=b["O"] @ Q.T)
                 gL, gp = b["get_L"], b["get_pos"]
@@ -542,11 +544,6 @@ def run_gbs_scenarios(seed, start, count):
                     if floor < chi / (n * (1 + chi)) * (1 - 1e-9):
                         msgs.append(f"stored fraction {floor:.3e} below chi/(n(1+chi))")
                     at_floor = np.isclose(fn_, floor, rtol=1e-12, atol=0) & (fn_ * (1 + chi) <= chi / n * (1 + 1e-9) * (1 + chi))
-                    # several grains sharing exactly the minimum are floored grains: their value is (chi/n)/S with S >= 1
-                    tied = fn_ == floor
-                    frozen = np.array([np.array_equal(On[g_], O_start[g_]) for g_ in range(n)])
-                    if int(tied.sum()) >= 2 and frozen[tied].all() and not frozen.all() and floor > chi / n * (1 + 1e-9):
-                        msgs.append(f"frozen grains sit at {floor * n:.4f}/n, above the threshold chi/n = {chi:.2f}/n (regime {sc['regime']})")
                     # grains at the floor value chi/(n S): frozen at the start-of-update orientation
                     S_ = (chi / n) / floor if floor > 0 else None
                     if S_ is not None and 1 - 1e-9 <= S_ <= 1 + chi + 1e-9:
